@@ -28,7 +28,15 @@ fn gen(t: &mut Tape) -> (DiffCase, Cfg, Labels) {
     o.max_lines = 6;
     let plain = t.chance(1, 10);
     let case = if plain {
-        gen_plain_case(t, &o)
+        let mut c = gen_plain_case(t, &o);
+        // `diff -r` reports a binary file with a bare `Binary files a/y and b/y differ` line
+        // (no `diff` line in front of it), before, between or after the text files
+        if t.coin() {
+            let at = t.below(c.items.len() + 1);
+            let name = format!("bin_{}.png", t.below(90) + 10);
+            c.items.insert(at, Item::Free(vec![format!("Binary files a/{} and b/{} differ", name, name)]));
+        }
+        c
     } else {
         let n = t.range(1, 6);
         let mut items = Vec::new();
@@ -272,6 +280,20 @@ fn evaluate(case: &DiffCase, cfg: &Cfg, l: &Labels, out: &[u8]) -> Result<(), Fa
     }
     if next != evs.len() {
         return Err(fail("header-missing", format!("{} of {} expected headers were shown; first missing: {:?} ({})", next, evs.len(), evs[next], match &evs[next] { Ev::File(si) | Ev::Hunk(si, _) => format!("{} {}", secs[*si].kind.name(), secs[*si].new_path) })));
+    }
+    // binary files of a plain `diff -r` stream must be reported too
+    let vis = term::visible_text(out);
+    for it in &case.items {
+        if let Item::Free(ls) = it {
+            for l in ls {
+                if let Some(rest) = l.strip_prefix("Binary files a/") {
+                    let name = rest.split(' ').next().unwrap_or("");
+                    if !vis.lines().any(|o| o.contains(name) && (o.contains("inary"))) {
+                        return Err(fail("binary-not-reported:plain-diff", format!("the input line `{}` (diff -r) is not reflected in the output: no line names `{}` as a binary file", l, name)));
+                    }
+                }
+            }
+        }
     }
     if let Some(f) = deferred {
         return Err(f);
